@@ -171,11 +171,11 @@ type FwOp struct {
 	PreView  *ViewSpec // if set: an object first linted with this view is overwritten in place and linted again
 	NoNext   bool      // OCSP: response without nextUpdate (target is Go's zero time)
 	ViewLine string
-	Kind   string
-	View   ViewSpec
-	Target time.Time
-	Offset bool
-	Lints  []LintSpec
+	Kind     string
+	View     ViewSpec
+	Target   time.Time
+	Offset   bool
+	Lints    []LintSpec
 }
 
 func (o FwOp) Line() string {
@@ -340,13 +340,13 @@ var fwApps = []string{"T", "F", "P"}
 var fwViews = []ViewSpec{
 	{}, // no EKU at all: server-auth in scope
 	{EKUs: []string{"1.3.6.1.5.5.7.3.1"}},
-	{EKUs: []string{"1.3.6.1.5.5.7.3.2"}},                                // clientAuth only: out of BR scope
-	{EKUs: []string{"1.3.6.1.5.5.7.3.36"}},                               // only an EKU the parser does not know
-	{EKUs: []string{"2.5.29.37.0"}},                                      // any
+	{EKUs: []string{"1.3.6.1.5.5.7.3.2"}},  // clientAuth only: out of BR scope
+	{EKUs: []string{"1.3.6.1.5.5.7.3.36"}}, // only an EKU the parser does not know
+	{EKUs: []string{"2.5.29.37.0"}},        // any
 	{EKUs: []string{"1.3.6.1.5.5.7.3.2"}, Policies: []string{"2.23.140.1.2.1"}}, // BR DV policy
 	{EKUs: []string{"1.3.6.1.5.5.7.3.4"}, Emails: []string{"a@example.com"}},
-	{EKUs: []string{"1.3.6.1.5.5.7.3.4"}},                               // emailProtection but no email SAN
-	{Emails: []string{"a@example.com"}},                                 // email SAN, no EKU
+	{EKUs: []string{"1.3.6.1.5.5.7.3.4"}},                                    // emailProtection but no email SAN
+	{Emails: []string{"a@example.com"}},                                      // email SAN, no EKU
 	{EKUs: []string{"1.3.6.1.5.5.7.3.2"}, Emails: []string{"a@example.com"}}, // email SAN, other EKU
 	{EKUs: []string{"1.3.6.1.5.5.7.3.2"}, Policies: []string{"2.23.140.1.5.1.3"}},
 	{EKUs: []string{"1.3.6.1.5.5.7.3.3"}, Policies: []string{"2.23.140.1.4.1"}},
